@@ -4,13 +4,15 @@ import valida.datapath
 
 
 def set_datum(data, data_path, datum):
+    """Set `datum` at a concrete path: a concrete `DataPath` or a sequence of keys/indices."""
 
-    for part in data_path.parts[:-1]:
-        idx = part.condition.callable.kwargs["value"]
+    if isinstance(data_path, valida.datapath.DataPath):
+        data_path = data_path.simplify()
+
+    for idx in data_path[:-1]:
         data = data[idx]
 
-    idx = data_path.parts[-1].condition.callable.kwargs["value"]
-    data[idx] = datum
+    data[data_path[-1]] = datum
 
 
 class Data:
